@@ -1458,7 +1458,7 @@ def planOf (g : Graph) : Plan :=
     inputs := [], outputs := g.outputs, scratch := none, fast := none, align := 16 }
 
 private def diesStep (t : Nat) (acc : Nat) (x : AOp × Nat) : Nat :=
-  if x.1.inputs.contains t then max acc (x.2 + 1) else acc
+  if x.1.inputs.contains t || x.1.outputs.contains t then max acc (x.2 + 1) else acc
 
 theorem foldl_dies_ge (t : Nat) : ∀ (l : List (AOp × Nat)) (b : Nat), b ≤ l.foldl (diesStep t) b := by
   intro l
@@ -1472,7 +1472,7 @@ theorem foldl_dies_ge (t : Nat) : ∀ (l : List (AOp × Nat)) (b : Nat), b ≤ l
     split <;> omega
 
 theorem foldl_dies_reader (t : Nat) : ∀ (l : List (AOp × Nat)) (b : Nat) (x : AOp × Nat), x ∈ l →
-    x.1.inputs.contains t = true → x.2 + 1 ≤ l.foldl (diesStep t) b := by
+    (x.1.inputs.contains t || x.1.outputs.contains t) = true → x.2 + 1 ≤ l.foldl (diesStep t) b := by
   intro l
   induction l with
   | nil => intro b x hx; simp at hx
@@ -1488,7 +1488,7 @@ theorem foldl_dies_reader (t : Nat) : ∀ (l : List (AOp × Nat)) (b : Nat) (x :
     · exact ih _ x hx hr
 
 theorem foldl_dies_le (t B : Nat) : ∀ (l : List (AOp × Nat)) (b : Nat), b ≤ B →
-    (∀ x ∈ l, x.1.inputs.contains t = true → x.2 + 1 ≤ B) → l.foldl (diesStep t) b ≤ B := by
+    (∀ x ∈ l, (x.1.inputs.contains t || x.1.outputs.contains t) = true → x.2 + 1 ≤ B) → l.foldl (diesStep t) b ≤ B := by
   intro l
   induction l with
   | nil => intro b hb _; exact hb
@@ -1525,10 +1525,10 @@ theorem dies_planOf {g : Graph} {a o : Nat} (hout : a ∉ g.outputs) (hr : a ∈
       cases hg : g.tens[a]? <;> simp [hg] at h
   rw [if_neg h1]
   have hfold : ∀ b, (planOf g).ops.zipIdx.foldl
-      (fun acc (x : AOp × Nat) => if x.1.inputs.contains a then max acc (x.2 + 1) else acc) b =
+      (fun acc (x : AOp × Nat) => if x.1.inputs.contains a || x.1.outputs.contains a then max acc (x.2 + 1) else acc) b =
       (planOf g).ops.zipIdx.foldl (diesStep a) b := fun b => rfl
   have hdef : ((planOf g).ops.zipIdx.foldl (fun acc (x : AOp × Nat) =>
-      match x with | (o, k) => if o.inputs.contains a then max acc (k + 1) else acc) (born (planOf g) a)) =
+      match x with | (o, k) => if o.inputs.contains a || o.outputs.contains a then max acc (k + 1) else acc) (born (planOf g) a)) =
       (planOf g).ops.zipIdx.foldl (diesStep a) (born (planOf g) a) := rfl
   rw [hdef]
   apply Nat.le_antisymm
@@ -1547,12 +1547,16 @@ theorem dies_planOf {g : Graph} {a o : Nat} (hout : a ∉ g.outputs) (hr : a ∈
       · omega
     · intro x hx hrd
       have hm := List.mem_zipIdx_iff_getElem?.mp hx
-      obtain ⟨hi, _⟩ := planOf_ops_getElem? g x.2 x.1 hm
-      rw [hi] at hrd
-      have := List.contains_iff_mem.mp hrd
-      by_cases hq : o < x.2
-      · exact absurd this (hlater x.2 hq)
-      · omega
+      obtain ⟨hi, hou⟩ := planOf_ops_getElem? g x.2 x.1 hm
+      rw [hi, hou, Bool.or_eq_true] at hrd
+      rcases hrd with hrd | hwr
+      · have := List.contains_iff_mem.mp hrd
+        by_cases hq : o < x.2
+        · exact absurd this (hlater x.2 hq)
+        · omega
+      · -- a writer: every producer comes before `o`
+        have := hprod x.2 (List.contains_iff_mem.mp hwr)
+        omega
   · -- the reader `o`
     have ho : o < g.passes.length := g.lt_of_mem_R0 hr
     have hget : (planOf g).ops[o]? = some ((planOf g).ops[o]'(by simp [planOf]; exact ho)) := List.getElem?_eq_getElem _
@@ -1560,8 +1564,8 @@ theorem dies_planOf {g : Graph} {a o : Nat} (hout : a ∉ g.outputs) (hr : a ∈
       List.mem_zipIdx_iff_getElem?.mpr hget
     have := foldl_dies_reader a _ (born (planOf g) a) _ hmem (by
       obtain ⟨hi, _⟩ := planOf_ops_getElem? g o _ hget
-      simp only [hi]
-      exact List.contains_iff_mem.mpr hr)
+      simp only [hi, Bool.or_eq_true]
+      exact Or.inl (List.contains_iff_mem.mpr hr))
     exact this
 
 
